@@ -167,3 +167,17 @@ fn f13_c12_relator_of_length_one_does_not_lose_subgroup_classes() {
     assert_eq!(count(3, &[&[2, 3, -2, -3], &[1]], 4), 15);            // 14 on the pinned tree
     assert_eq!(count(3, &[&[1, 2, -1, 2], &[3]], 4), count(2, &[&[1, 2, -1, 2]], 4));   // Klein bottle group: 10 vs 11 on the pinned tree
 }
+
+// f14 (C11, C12): words that freely reduce to the empty word (a trivial relator, a trivial subgroup generator) made the enumerations panic at w[0].
+// Observed by two seeding sub-agents on the unmodified tree.
+#[test]
+fn f14_c11_c12_empty_words_are_accepted() {
+    use rust_dsymbols::fpgroups::cosets::{coset_table, coset_tables};
+    use rust_dsymbols::fpgroups::free_words::FreeWord;
+    let z3 = vec![FreeWord::new([1, 1, 1]), FreeWord::new([1, -1])];
+    assert_eq!(coset_table(1, &z3, &vec![]).len(), 3);                                         // panicked at cosets.rs `w[0] == g`
+    assert_eq!(coset_table(1, &vec![FreeWord::new([1, 1, 1])], &vec![FreeWord::new([1, -1])]).len(), 3);   // panicked in scan_both_ways
+    let z2 = vec![FreeWord::new([1, 2, -1, -2]), FreeWord::new([2, -2])];
+    assert_eq!(coset_tables(2, &z2, 3).count(), 8);                                             // panicked in scan_both_ways
+}
+
